@@ -871,19 +871,29 @@ class GraphBuilder(BuilderBase):
             return ".".join(parts) + "." + name
         return name
 
+    def _nested_graph_name_parts(self) -> list[str]:
+        """Names of the nested graphs (subgraphs) this builder is in, outermost first.
+
+        The names generated in a nested graph restart their numbering: they are qualified with
+        the name of the graph so that they do not shadow the names of the enclosing graphs.
+        """
+        if self._parent is None or not self._graph.name:
+            return []
+        return [*self._parent._nested_graph_name_parts(), self._graph.name]  # pylint: disable=protected-access
+
     def _qualify_value_name(self, name: str) -> str:
         """Qualify a value name with the current scope using ``.`` separator.
 
         The name is prefixed with ``v_`` to distinguish values from parameters.
         """
-        parts = self._scope_name_parts()
+        parts = [*self._nested_graph_name_parts(), *self._scope_name_parts()]
         if parts:
             return "v_" + ".".join(parts) + "." + name
         return f"v_{name}"
 
     def _qualify_node_name(self, name: str) -> str:
         """Qualify a node name with the current scope using ``/`` separator."""
-        parts = self._scope_name_parts()
+        parts = [*self._nested_graph_name_parts(), *self._scope_name_parts()]
         if parts:
             return "/".join(parts) + "/" + name
         return name
